@@ -3,6 +3,8 @@
 // Correspondence harness for GCPMultiEndpoint (C15, C16). Injected with `go test -overlay`.
 //   gme new|upd default=<name> opts=<name>:<e>+<e>,<name>:-(nil options),<name>:(empty list) fail=<e>+<e>
 //   gme pstate e=<endpoint> ready=0|1       what the pool's monitor goroutine delivers
+//   gme stalenotify e=<endpoint> ready=0|1  the monitor goroutine of a pool that an update removed delivers one more report
+//                                       (it had read the state before the update took the lock): nothing may change
 //   gme rpc name=<name>|-                   which pool an RPC with that context would use
 //   gme close
 //   gme livemon flips=<k> [final=<READY|NOTREADY>]   a pool with real connectivity (in-memory server): while an update holds
@@ -48,6 +50,7 @@ type gmeHarness struct {
 	fail   map[string]bool
 	apiCfg *pb.ApiConfig
 	ctorCfg *pb.ApiConfig            // a private copy of the configuration the object was constructed with
+	removed map[string][]*monitoredConn // pools that an update removed (their monitors may still be about to report)
 	optsObj *GCPMultiEndpointOptions // the application's options object, edited in place between calls
 
 	// live endpoint ("live..." targets) and slow dial ("slow" target) of the livemon scenario
@@ -387,7 +390,7 @@ func (h *gmeHarness) exec(line string) (out string) {
 			if h.gme != nil {
 				h.gme.Close()
 			}
-			h.gme, h.conns, h.dials = nil, map[string][]*grpc.ClientConn{}, map[string]int{}
+			h.gme, h.conns, h.dials, h.removed = nil, map[string][]*grpc.ClientConn{}, map[string]int{}, nil
 			before = map[string]int{}
 			var g *GCPMultiEndpoint
 			g, err = NewGCPMultiEndpoint(o)
@@ -407,7 +410,23 @@ func (h *gmeHarness) exec(line string) (out string) {
 			case 1:
 				o.GRPCgcpConfig = &pb.ApiConfig{ChannelPool: &pb.ChannelPoolConfig{MinSize: 3, MaxSize: 9}}
 			}
+			prev := map[string]*monitoredConn{}
+			h.gme.mu.RLock()
+			for e, mc := range h.gme.pools {
+				prev[e] = mc
+			}
+			h.gme.mu.RUnlock()
 			err = h.gme.UpdateMultiEndpoints(o)
+			h.gme.mu.RLock()
+			for e, mc := range prev {
+				if h.gme.pools[e] != mc {
+					if h.removed == nil {
+						h.removed = map[string][]*monitoredConn{}
+					}
+					h.removed[e] = append(h.removed[e], mc)
+				}
+			}
+			h.gme.mu.RUnlock()
 		}
 		if err != nil {
 			return "err ; " + h.digest()
@@ -418,6 +437,17 @@ func (h *gmeHarness) exec(line string) (out string) {
 			}
 		}
 		time.Sleep(5 * time.Millisecond) // let the new monitors deliver their initial (not ready) state
+		return "ok ; " + h.digest()
+	case "stalenotify":
+		if h.gme == nil || len(h.removed[a["e"]]) == 0 {
+			return "bad-op"
+		}
+		st := connectivity.Shutdown
+		if a["ready"] == "1" {
+			st = connectivity.Ready
+		}
+		l := h.removed[a["e"]]
+		l[len(l)-1].notify(st)
 		return "ok ; " + h.digest()
 	case "pstate":
 		if h.gme == nil {
@@ -582,6 +612,15 @@ func TestVerifGME(t *testing.T) {
 			continue
 		}
 		for i := 0; i < 6+rng.Intn(10); i++ {
+			if len(h.removed) > 0 && rng.Intn(4) == 0 {
+				es := []string{}
+				for e := range h.removed {
+					es = append(es, e)
+				}
+				sort.Strings(es)
+				emit(fmt.Sprintf("gme stalenotify e=%s ready=%d", es[rng.Intn(len(es))], rng.Intn(3)/2))
+				continue
+			}
 			switch k := rng.Intn(10); {
 			case k < 3:
 				emit(fmt.Sprintf("gme pstate e=%s ready=%d", eps[rng.Intn(len(eps))], rng.Intn(2)))
